@@ -87,7 +87,17 @@ fn worker(kind: &str, file: &std::path::Path, from: usize, to: usize, limit: Dur
       }
       return;
     }
-    let mut child = match Command::new(&exe)
+    // VERIF_CHILD_VMEM_KB: an address-space limit for the child (a runaway allocation of the code under test then
+    // ends that child, not the machine's memory)
+    let mut cmd = match std::env::var("VERIF_CHILD_VMEM_KB") {
+      Ok(kb) => {
+        let mut c = Command::new("sh");
+        c.arg("-c").arg(format!("ulimit -v {}; exec \"$0\" \"$@\"", kb)).arg(&exe);
+        c
+      }
+      Err(_) => Command::new(&exe),
+    };
+    let mut child = match cmd
       .args(["child", kind, &file.to_string_lossy(), &(next - from).to_string(), &from.to_string()])
       .stdout(Stdio::piped())
       .stderr(Stdio::null())
